@@ -321,7 +321,7 @@ def random_unicode(env, cp, n, maxlen=60):
     return out
 
 
-def run(env):
+def run(env, with_model=True):
     t = env.tables
     cp = list(t["encoding"]["codepage"])
     V.import_repo()
@@ -332,7 +332,8 @@ def run(env):
         "variable, function call name, function definition name with and without parameters, parameter slots 1-3, lambda arity, compressed "
         f"string/number, code-page number, string nested in structures, modifier operand) x all payloads of length <= {quick_len}; all raw strings "
         f"of length <= {raw_len} over the alphabet; random strings to length 60 over the code page; grammar-generated programs with adversarial "
-        "payloads.  These go through (1) the exact-text correspondence model-vs-vyxal.transpile (dictionary off) and (2) the oracle on the "
+        "payloads.  The oracle sees every one of them; the Coq-side text comparison is capped at 90000 sources (thorough tier: the top payload "
+        "length is then sampled, numbers in correspondence_sampling).  They go through (1) the exact-text correspondence model-vs-vyxal.transpile (dictionary off) and (2) the oracle on the "
         "implementation: transpile(src) in three modes (dictionary on, dictionary off, dictionary off + variables-as-digraphs), ast.parse, every "
         "Name / attribute / keyword / parameter / def name in the vocabulary (names of transpile.py's fixed lines and of all element and modifier "
         "templates, computed with ast from the regenerated tables) or VAR_/_lambda_ + [A-Za-z0-9_]* (ctx.VAR_...), every statement header (constants "
@@ -359,14 +360,24 @@ def run(env):
     cpset = set(cp)
     corr = [s for _, _, s in pos] + raw + rnd + gen + [s for _, _, s in marked if set(s) <= cpset]
     corr = [s for s in dict.fromkeys(corr) if set(s) <= cpset]
-    if env.thorough and len(corr) > 150000:
-        # keep every position payload, sample the raw strings of the top length
-        keep = set(s for _, _, s in pos)
-        short = [s for s in corr if s in keep or len(s) < raw_len]
-        longs = [s for s in corr if s not in keep and len(s) >= raw_len]
-        corr = short + env.rng.sample(longs, max(0, 150000 - len(short)))
-        env.note("correspondence_raw_top_length_sampled", True)
-    transcorr.check(env, corr, name="c18tr", shard=400)
+    cap = 90000
+    if len(corr) > cap:
+        # the Coq-side comparison is the expensive part: every position payload up to length
+        # quick_len - 1 and every shorter raw string is kept, the top lengths are sampled (the
+        # oracle below still sees all of them)
+        top_pos = set(s for _, p, s in pos if len(p) >= quick_len and p not in SEEDS)
+        top_raw = set(s for s in raw if len(s) >= raw_len)
+        keep = [s for s in corr if s not in top_pos and s not in top_raw]
+        rest_pos = [s for s in corr if s in top_pos]
+        rest_raw = [s for s in corr if s in top_raw and s not in top_pos]
+        room = max(0, cap - len(keep))
+        take_pos = min(len(rest_pos), room * 2 // 3)
+        take_raw = min(len(rest_raw), room - take_pos)
+        corr = keep + env.rng.sample(rest_pos, take_pos) + env.rng.sample(rest_raw, take_raw)
+        env.note("correspondence_sampling", {"cap": cap, "kept_exhaustive": len(keep), "top_length_position_payloads": f"{take_pos} of {len(rest_pos)}",
+                                             "top_length_raw_strings": f"{take_raw} of {len(rest_raw)}"})
+    if with_model:
+        transcorr.check(env, corr, name="c18tr", shard=400)
     env.note("correspondence_inputs", {"position_payload": len(pos), "raw": len(raw), "random_codepage": len(rnd), "generated_programs": len(gen)})
 
     # ---- (2) the oracle on the implementation ------------------------------------------------------
@@ -438,3 +449,18 @@ def run(env):
                "C18_strict_partial gives the exact automaton when the source has no carriage return")
     env.assume("safe_text is a per-chunk predicate: that vocabulary lines are emitted only as whole templates is a fact of the model's structure, "
                "and that each template is a complete compilation unit is a translator fact (templates_self_contained)")
+
+
+def search_without_tables(env):
+    """The translator refused the sources (fail-closed): the oracle still runs, with the
+    template texts taken from the implementation's own tables."""
+    V.import_repo()
+    from vyxal import encoding
+    from vyxal.elements import elements, modifiers
+    env.tables = {
+        "encoding": {"codepage": encoding.codepage},
+        "elements": [{"key": k, "text": v[0]} for k, v in elements.items()],
+        "modifiers": [{"key": k, "text": v} for k, v in modifiers.items()],
+    }
+    env.note("tables_from_translator", False)
+    run(env, with_model=False)
